@@ -420,18 +420,21 @@ type txResult struct {
 	resp   string
 	events []string
 	panicv interface{}
+	reexec string // set when the handler wrote into its request: "same" or how a second execution of the same value differed
 }
 
 // runMsg executes one message the way baseapp does: on a branch of the committed state that is written back only when the
 // handler succeeds.  With discard set the branch is dropped whatever the outcome (simulation / CheckTx, or an early
 // message of a transaction whose later message fails).
-func (w *World) runMsg(plan string, discard bool, chain bool, call func(ctx context.Context) (string, error)) (res txResult) {
+func (w *World) runMsg(plan string, discard bool, chain bool, call func(ctx context.Context) (string, error), mutated func() bool) (res txResult) {
 	w.plan, w.callIdx, w.calls, w.writes = plan, 0, nil, nil
 	ctx := w.ctx()
 	cctx, write := ctx.CacheContext()
+	fresh := true
 	if discard && chain && w.simActive {
 		// the messages of one transaction (or one simulation) share a branch: this one sees what the previous ones wrote
 		cctx = w.simCtx
+		fresh = false
 	}
 	if !discard {
 		w.simActive = false
@@ -452,6 +455,46 @@ func (w *World) runMsg(plan string, discard bool, chain bool, call func(ctx cont
 		res.class, res.resp = "ok", resp
 	}()
 	w.tracing = false
+	if fresh && mutated != nil && mutated() {
+		// The handler wrote into its own request.  Is the request still the same request?  Execute the very same value once
+		// more from the very same state (the first branch is not written back yet) and compare what comes out.
+		var evs1 []string
+		for _, e := range cctx.EventManager().Events() {
+			evs1 = append(evs1, formatEvent(e))
+		}
+		calls1, writes1, idx1 := w.calls, w.writes, w.callIdx
+		w.plan, w.callIdx, w.calls, w.writes = plan, 0, nil, nil
+		c2, _ := ctx.CacheContext()
+		c2 = c2.WithEventManager(sdk.NewEventManager())
+		var res2 txResult
+		func() {
+			defer func() {
+				if r := recover(); r != nil {
+					res2.class = "panic"
+				}
+			}()
+			resp, err := call(c2)
+			if err != nil {
+				res2.class = "err"
+				return
+			}
+			res2.class, res2.resp = "ok", resp
+		}()
+		var evs2 []string
+		for _, e := range c2.EventManager().Events() {
+			evs2 = append(evs2, formatEvent(e))
+		}
+		same := res2.class == res.class && res2.resp == res.resp && strings.Join(evs1, "|") == strings.Join(evs2, "|") && strings.Join(w.calls, "|") == strings.Join(calls1, "|")
+		if res.class != "ok" {
+			same = res2.class == res.class
+		}
+		if same {
+			res.reexec = "same"
+		} else {
+			res.reexec = fmt.Sprintf("first=%s%s second=%s%s", res.class, res.resp, res2.class, res2.resp)
+		}
+		w.calls, w.writes, w.callIdx = calls1, writes1, idx1
+	}
 	if discard {
 		// the branch lives on for a chained successor only while every message on it succeeded
 		w.simCtx, w.simActive = cctx, res.class == "ok"
